@@ -8,6 +8,7 @@
   A `Call` is (source of the store object, path of the store object, path of the object, relative_path).
 -/
 import Basyx.Lemmas.Tree
+import Basyx.Gen.Backends
 namespace Basyx.Tree
 
 /-! ### what the statement demands -/
@@ -333,5 +334,12 @@ example : (runCalls ["vfa".toList] [⟨"vfa:one".toList, [], [], []⟩, ⟨"zz:x
     = some .unknownBackend := by decide
 example : getBackend ["vfa".toList] "noscheme".toList = .error .valueError := by decide
 example : scheme? "vf.b+c-d://x".toList = some "vf.b+c-d".toList := by decide
+
+/-! ### The backend is looked up in the registry on every call
+
+`runCalls reg` resolves every call's scheme in the registry `reg` as it is at the time of the call.  That `backends.get_backend`
+does so - it carries no memoising decorator - is regenerated from the source (`Gen/Backends.lean`). -/
+
+theorem c17_backend_lookup_not_memoised : Gen.Backends.getBackendDecorators = [] := by decide
 
 end Basyx.Tree
